@@ -1088,6 +1088,7 @@ class Runner:
             self.in_sync_tx = None
             return
         # initialized, same ids
+        self._count_branches(rep, before_vg, old)
         if after_vg[0] < before_vg[0]:
             self.fail('mdib-version-regressed', f'{where}: MdibVersion {before_vg[0]} -> {after_vg[0]}')
         for tab, name in ((1, 'state'), (2, 'context state')):
@@ -1144,6 +1145,37 @@ class Runner:
             if named != ch:
                 self.fail('notification-keys:' + ('context' if rep.rk == 3 else 'state'),
                           f'{where}: {OBS_OF_RK[rep.rk]} names #{sorted(named)}, the report changed #{sorted(ch)}')
+
+    def _count_branches(self, rep, before_vg, old):
+        """which branches of the handlers this delivery exercises (evidence only)"""
+        d = rep.vg[0] - before_vg[0]
+        self.count('branch:mdib-version-' + ('older' if d < 0 else 'equal' if d == 0 else 'next' if d == 1 else 'gap'))
+        if d < 0:
+            return
+
+        def gate(tab, key, st, svi):
+            o = old[tab].get(key)
+            if o is None:
+                return 'missing'
+            dd = st[svi] - o[svi]
+            return 'older' if dd < 0 else 'equal' if dd == 0 else 'next' if dd == 1 else 'gap'
+        for st in rep.states:
+            self.count('branch:state-gate-' + gate(1, st[0], st, 2))
+        for st in rep.cstates:
+            self.count('branch:context-gate-' + gate(2, st[0], st, 3))
+        for m, dsc, ss, cs in rep.parts:
+            have = dsc[0] in old[0]
+            self.count('branch:part-' + ('create', 'update', 'delete')[m] + ('-existing' if have else '-missing'))
+            for st in ss:
+                self.count('branch:part-state-gate-' + gate(1, st[0], st, 2))
+            for st in cs:
+                self.count('branch:part-context-gate-' + gate(2, st[0], st, 3))
+            if m == 1 and dsc[2] == 5:
+                keep = {c[0] for c in cs if c[1] == dsc[0]}
+                if any(c[1] == dsc[0] and k not in keep for k, c in old[2].items()):
+                    self.count('branch:context-update-removes-state')
+            if m == 2 and any(x[1] == dsc[0] for x in old[0].values()):
+                self.count('branch:delete-with-subtree')
 
     def _track_sync(self, i, new, where):
         """mirror oracle: while every report since the load arrived exactly once and in order, the consumer must equal
